@@ -28,7 +28,7 @@ META = {
 
 
 META['explanation'] += ' Rounds 4-5: ' + 'R2 now evaluates the expression bound to each delimiter attribute over a header whose character at offset i is the number i, per whitelisted version (whitelist: literal or module constant). R8 Segment.format / Composite.format decided by constant propagation on empty / blank / filled positions: every position up to the last non-empty one is printed (a blank is a value).'
-META['technique'] += '; conditional constant propagation over the CFG on finite, complete input domains (DESIGN.md 10.4.1)'
+META['technique'] = META.get('technique', 'static analysis: AST/CFG rules over /repo source + shipped XML data') + '; conditional constant propagation over the CFG on finite, complete input domains (DESIGN.md 10.4.1)'
 
 
 # --------------------------------------------------------------------------- R1
